@@ -914,7 +914,11 @@ def lexIdent (l : Lexer) : Res := do
   if r = 46 then do
     let (d, l) ← l.next
     lexIdentRest l.backup (if isDigit d then .tDotIndex else .tDotIdent)
-  else if r = 36 then lexIdentRest l .tDollarIdent
+  else if r = 36 then do
+    -- a variable name begins with a letter or an underscore.
+    let (p, l) ← l.peek
+    if p ≠ 95 ∧ !isLetterU p then errorf l
+    else lexIdentRest l .tDollarIdent
   else if r = 47 then lexIdentRest l .tCommandEnd
   else if r = 92 then lexIdentRest l .tSpecialChar
   else if r = 63 then do
